@@ -326,7 +326,15 @@ class Ctx:
         self.seed = seed
         self.rng = random.Random((seed, prop).__repr__())
         self.driver = driver
-        self.results = []      # list of dicts
+        self.results = []      # every case, only when keep_all (replay)
+        self.keep_all = False
+        self.failures = []
+        self.samples = []
+        self.sample_kinds = set()
+        self.drift_samples = []
+        self.distinct = set()
+        self.n_eval = 0
+        self.n_in = 0
         self.hist = {}
         self.notes = []
         self.drift = 0
@@ -339,11 +347,38 @@ class Ctx:
                key=None, detail=None):
         """One evaluated case.  impl/spec/model are canonical Python values (see sx.canon).
         in_domain: inside the property's quantifier (certified by the driver's wf check where there is one).
-        key: finding key if this case fails (defaults to kind)."""
-        self.results.append({'kind': kind, 'abstract': abstract, 'impl': sx.canon(impl),
-                             'spec': sx.canon(spec), 'model': None if model is None else sx.canon(model),
-                             'has_model': model is not None, 'in_domain': in_domain,
-                             'nontrivial': nontrivial, 'key': key or kind, 'detail': detail})
+        key: finding key if this case fails (defaults to kind).
+        Aggregated on the fly: only failing cases, drift cases and a few samples are kept."""
+        impl = sx.canon(impl)
+        spec = sx.canon(spec)
+        has_model = model is not None
+        model = sx.canon(model) if has_model else None
+        self.n_eval += 1
+        if nontrivial:
+            self.distinct.add(hashlib.blake2b(repr((kind, abstract)).encode(), digest_size=8).digest())
+        r = None
+        if in_domain:
+            self.n_in += 1
+            bad_impl = impl != spec
+            bad_echo = has_model and model != spec
+            if bad_impl or bad_echo:
+                r = {'kind': kind, 'abstract': abstract, 'impl': impl, 'spec': spec, 'model': model,
+                     'has_model': has_model, 'in_domain': True, 'nontrivial': nontrivial,
+                     'key': key or kind, 'detail': detail, 'bad_impl': bad_impl, 'bad_echo': bad_echo}
+                if len(self.failures) < 5000:
+                    self.failures.append(r)
+        else:
+            if has_model and impl != model:
+                self.drift += 1
+                if len(self.drift_samples) < 5:
+                    self.drift_samples.append({'kind': kind, 'abstract': abstract, 'impl': impl, 'model': model})
+        if kind not in self.sample_kinds and len(self.samples) < 12:
+            self.sample_kinds.add(kind)
+            self.samples.append({'kind': kind, 'abstract': abstract, 'impl': impl, 'spec': spec})
+        if self.keep_all:
+            self.results.append(r or {'kind': kind, 'abstract': abstract, 'impl': impl, 'spec': spec, 'model': model,
+                                      'has_model': has_model, 'in_domain': in_domain, 'nontrivial': nontrivial,
+                                      'key': key or kind, 'detail': detail})
 
 
 def load_known():
@@ -438,6 +473,7 @@ def _main_check(prop, cfg, tier, seed, replay=None):
         proof_broken.append('driver is stale (model no longer builds): ' + drv_msg)
 
     ctx = Ctx(prop, tier, seed, Driver(exe) if exe else None)
+    ctx.keep_all = bool(replay)
     harness = importlib.import_module('tools.harness.' + cfg['harness'])
     harness_error = None
     if exe is not None:
@@ -463,25 +499,17 @@ def _main_check(prop, cfg, tier, seed, replay=None):
     # ---------------- decide
     known = load_known()
     known_keys = {k['key']: k for k in known if k['property'] == prop and k['status'] == 'known'}
-    n_eval = len(ctx.results)
-    distinct = set()
+    n_eval = ctx.n_eval
+    distinct = ctx.distinct
     fail_by_key = {}
     echo_fail = []
-    drift = 0
-    in_dom = 0
-    for r in ctx.results:
-        hsh = hashlib.sha256(repr((r['kind'], r['abstract'])).encode()).hexdigest()
-        if r['nontrivial']:
-            distinct.add(hsh)
-        if r['in_domain']:
-            in_dom += 1
-            if r['impl'] != r['spec']:
-                fail_by_key.setdefault(r['key'], []).append(r)
-            if r['has_model'] and r['model'] != r['spec'] and r['key'] not in known_keys:
-                echo_fail.append(r)
-        else:
-            if r['has_model'] and r['impl'] != r['model']:
-                drift += 1
+    drift = ctx.drift
+    in_dom = ctx.n_in
+    for r in ctx.failures:
+        if r['bad_impl']:
+            fail_by_key.setdefault(r['key'], []).append(r)
+        if r['bad_echo'] and r['key'] not in known_keys:
+            echo_fail.append(r)
     seen_known = set()
     for key, rs in sorted(fail_by_key.items()):
         r = min(rs, key=lambda x: len(repr(x['abstract'])))
@@ -514,13 +542,7 @@ def _main_check(prop, cfg, tier, seed, replay=None):
         violations.append((path, ' no-failing-input-found'))
 
     # ---------------- evidence
-    samples = []
-    seen_kinds = set()
-    for r in ctx.results:
-        if r['kind'] not in seen_kinds and len(samples) < 12:
-            seen_kinds.add(r['kind'])
-            samples.append({'kind': r['kind'], 'abstract': sx.jsonable(r['abstract']),
-                            'impl': sx.jsonable(r['impl']), 'spec': sx.jsonable(r['spec'])})
+    samples = [sx.jsonable(x) for x in ctx.samples]
     if not samples:
         samples = [{'note': 'no case evaluated'}]
     evidence = {
@@ -536,7 +558,7 @@ def _main_check(prop, cfg, tier, seed, replay=None):
             'audit_hits': audit_hits,
             'evaluations': n_eval, 'distinct_nontrivial': len(distinct),
             'rule': getattr(harness, 'RULE', 'distinct = hash of (kind, abstract input); non-trivial per harness'),
-            'in_domain': in_dom, 'out_of_domain': n_eval - in_dom, 'model_drift': drift,
+            'in_domain': in_dom, 'out_of_domain': n_eval - in_dom, 'model_drift': drift, 'model_drift_samples': sx.jsonable(ctx.drift_samples),
             'histogram': ctx.hist, 'samples': samples,
             'known_findings_reproduced': sorted(seen_known), 'notes': ctx.notes,
             'driver': drv_msg, 'exhaustive': False,
